@@ -4,9 +4,19 @@ C13 — package version comparison is RPM's ordering.
 Tie: `_rpm_vercmp`, `rpm_version_compare`, InstalledRpm's operators and InstalledRpms.newest/oldest
 are run in-process on generated strings and compared with IV.Rpm (Drivers/C13.lean).
 Oracle: an independent byte-level port of rpmvercmp.c, RPM's own test table, the order laws.
+
+"RPM's own comparison" inside Lean is IV.Rpm.Reference.rpmvercmp (Model/RpmRef.lean), a transcription
+of rpmvercmp.c on code units; `vercmp_eq_reference` proves the model of `_rpm_vercmp` equal to it.
+The transcription is trusted, so it is tied to RPM's data here: driver command `ref` runs it on the
+UTF-8 bytes of every pair (streams `reference-vs-c-port`, `reference-vs-rpm-table`), and `u8` exposes
+the driver's UTF-8 encoder for comparison with Python's (stream `driver-utf8`).
+`vercmp_eq_lex` states the comparison as a lexicographic order on tokens; its vocabulary (`tokens`,
+`lexCmpTok`) is compared with an independent regex tokenizer (streams `tokens`, `token-lex-order`) and
+the same statement is an oracle on the implementation.
 """
 import json
 import os
+import re
 
 from harness.common import VERIF, enc, dec, run_driver
 
@@ -94,6 +104,50 @@ def c_rpmvercmp(a, b):
     return -1 if not one[i] else 1
 
 
+# fixed pairs for the `ref` stream: every UTF-8 length, neighbours of the length boundaries, non-ASCII
+# next to every token class, equal bytes reached from different strings is impossible in UTF-8 but
+# equal NORMALISED strings are not ("é" vs "€" vs ".")
+REF_EXTRA = [("\u007f", "\u0080"), ("1\u07ff2", "1.2"), ("\u0800", "\uffff"), ("\U00010000a", "\U0010ffffa"),
+             ("1é2", "1.2"), ("1é2", "1€2"), ("é", "€"), ("é", ""), ("é~", "€"), ("^é", "^"), ("aé1", "a1"),
+             ("0é0", "00"), ("aéb", "ab"), ("é1", "1"), ("1é", "1"), ("~é", "~"), ("é^1", "^1"), ("", ""), ("é", "é")]
+
+
+_TOK = re.compile(r"~|\^|[0-9]+|[A-Za-z]+")
+
+
+def py_tokens(s):
+    """independent statement of DESIGN A.1's `tokens`: non-ASCII -> '.', then maximal '~', '^', digit runs
+    (leading zeros stripped) and ASCII letter runs; everything else separates"""
+    s = "".join(c if ord(c) < 128 else "." for c in s)
+    out = []
+    for t in _TOK.findall(s):
+        out.append("n" + t.lstrip("0") if t[0].isdigit() else t if t in "~^" else "a" + t)
+    return out
+
+
+def _tok_key(t):
+    """~ < end < ^ < alpha (string order) < num (length, then string order)"""
+    if t is None:
+        return (1,)
+    if t == "~":
+        return (0,)
+    if t == "^":
+        return (2,)
+    if t[0] == "a":
+        return (3, t[1:])
+    return (4, len(t) - 1, t[1:])
+
+
+def py_lex(a, b):
+    ta, tb = py_tokens(a), py_tokens(b)
+    for i in range(max(len(ta), len(tb))):
+        x = _tok_key(ta[i] if i < len(ta) else None)
+        y = _tok_key(tb[i] if i < len(tb) else None)
+        if x != y:
+            return -1 if x < y else 1
+    return 0
+
+
 def gen_str(rng, maxlen):
     n = rng.choice([0, 1, 1, 2, 2, 3, 3, 4, 5, 6, maxlen])
     return "".join(rng.choice(ALPHA) for _ in range(n))
@@ -152,11 +206,16 @@ def run(chk):
     n_triples = 8000 if quick else 300000
     n_evr = 6000 if quick else 200000
     n_lists = 1500 if quick else 40000
+    n_ref = 40000 if quick else 600000      # pairs through Reference.rpmvercmp (table first)
+    n_u8 = 4000 if quick else 60000         # strings through the driver's UTF-8 encoder
     chk.rule = ("pairs/triples of strings over an alphabet biased to leading zeros, '~', '^', separators, "
                 "alpha/numeric switches, non-ASCII and empty, half of them near-neighbours of each other; "
                 "non-trivial = the two strings differ and the pair was not seen before")
     chk.assumptions = ["reference for 'RPM's ordering' in the oracle: a byte-level port of rpmvercmp.c written from the upstream source, "
-                       "plus RPM's own rpmvercmp.at table (corpus/C13/rpmvercmp_at.json)"]
+                       "plus RPM's own rpmvercmp.at table (corpus/C13/rpmvercmp_at.json)",
+                       "reference for 'RPM's ordering' in the theorems (vercmp_eq_reference): IV.Rpm.Reference.rpmvercmp, a line-by-line "
+                       "transcription of rpm lib/rpmvercmp.c (source quoted in lean/IV/Model/RpmRef.lean); checked on every run against "
+                       "the Python port on all generated pairs and against every row of RPM's rpmvercmp.at table"]
     chk.lean()
 
     # ---- stream 1: _rpm_vercmp on pairs (corpus first: RPM's table)
@@ -185,13 +244,40 @@ def run(chk):
         ref = c_rpmvercmp(a, b)
         if r != ref:
             chk.failure("vercmp(%r,%r)=%d but rpmvercmp.c gives %d" % (a, b, r, ref), {"op": "vc", "a": a, "b": b, "want": ref})
+        if r != py_lex(a, b):
+            chk.failure("vercmp(%r,%r)=%d is not the lexicographic comparison of the token lists %r / %r (=%d)"
+                        % (a, b, r, py_tokens(a), py_tokens(b), py_lex(a, b)), {"op": "vc", "a": a, "b": b, "want": ref})
         r2 = _rpm_vercmp(b, a)
         if r != -r2:
             chk.failure("not antisymmetric: vercmp(%r,%r)=%d, swapped=%d" % (a, b, r, r2), {"op": "anti", "a": a, "b": b})
         if _rpm_vercmp(a, a) != 0:
             chk.failure("not reflexive on %r" % a, {"op": "refl", "a": a})
-    model = run_driver("C13", ["vc\t%s\t%s" % (enc(a), enc(b)) for a, b in pairs])
+    # one driver start for: the model of _rpm_vercmp (vc), the transcription of rpmvercmp.c on
+    # the UTF-8 bytes (ref), and the driver's own UTF-8 encoder (u8)
+    pairs_ref = pairs + [(b, a) for a, b in pairs[:len(table)]] + REF_EXTRA
+    strs = sorted(set(x for p in pairs_ref for x in p))
+    if len(strs) > n_u8:
+        strs = sorted(set(strs[::len(strs) // n_u8 + 1] + [x for p in REF_EXTRA for x in p]))
+    if len(pairs_ref) > n_ref:
+        pairs_ref = pairs_ref[:n_ref] + REF_EXTRA
+    out = run_driver("C13", ["vc\t%s\t%s" % (enc(a), enc(b)) for a, b in pairs] +
+                     ["ref\t%s\t%s" % (enc(a), enc(b)) for a, b in pairs_ref] +
+                     ["u8\t%s" % enc(x) for x in strs] + ["tok\t%s" % enc(x) for x in strs] +
+                     ["lex\t%s\t%s" % (enc(a), enc(b)) for a, b in pairs_ref[:n_u8]])
+    cut = [len(pairs), len(pairs_ref), len(strs), len(strs), len(pairs_ref[:n_u8])]
+    model, ref_out, u8_out, tok_out, lex_out = [out[sum(cut[:i]):sum(cut[:i + 1])] for i in range(5)]
     chk.compare("vercmp", pairs, impl, model)
+    # the transcription (trusted base of vercmp_eq_reference) against the independent C port …
+    chk.compare("reference-vs-c-port", pairs_ref, [str(c_rpmvercmp(a, b)) for a, b in pairs_ref], ref_out)
+    # … against RPM's own expected results, row by row …
+    chk.compare("reference-vs-rpm-table", pairs[:len(table)], [str(w) for _, _, w in table], ref_out[:len(table)])
+    # … and the bytes it was given against Python's UTF-8
+    chk.compare("driver-utf8", strs, [",".join(str(v) for v in x.encode("utf-8")) or "-" for x in strs], u8_out)
+    # the vocabulary of vercmp_eq_lex (Model/RpmLex.lean) against the independent regex tokenizer
+    chk.compare("tokens", strs, [",".join(py_tokens(x)) or "-" for x in strs], tok_out)
+    chk.compare("token-lex-order", pairs_ref[:n_u8], [str(py_lex(a, b)) for a, b in pairs_ref[:n_u8]], lex_out)
+    for a, b in pairs_ref:
+        chk.count("ref:" + ("non-ascii" if any(ord(c) > 127 for c in a + b) else "ascii"))
     for p in pairs[103:106]:
         chk.sample({"vc": list(p), "impl": _rpm_vercmp(*p)})
 
@@ -300,8 +386,8 @@ def replay(data):
     if op in ("vc", "anti", "refl"):
         a, b = c["a"], c.get("b", c["a"])
         r, r2, ref = _rpm_vercmp(a, b), _rpm_vercmp(b, a), c_rpmvercmp(a, b)
-        m = run_driver("C13", ["vc\t%s\t%s" % (enc(a), enc(b))])[0]
-        print("impl vercmp(a,b)=%d vercmp(b,a)=%d  rpmvercmp.c=%d  model=%s" % (r, r2, ref, m))
+        m, mref = run_driver("C13", ["vc\t%s\t%s" % (enc(a), enc(b)), "ref\t%s\t%s" % (enc(a), enc(b))])
+        print("impl vercmp(a,b)=%d vercmp(b,a)=%d  rpmvercmp.c=%d  model=%s  Reference.rpmvercmp=%s" % (r, r2, ref, m, mref))
         bad = r != ref or r != -r2
     elif op == "trans":
         a, b, cc = c["a"], c["b"], c["c"]
